@@ -54,7 +54,18 @@ structure WTempl where
   edges : List WEdge
   deriving DecidableEq, Repr, Inhabited
 
-abbrev WDoc := List WTempl
+/-- a process of the system line: is it a template used directly (then no instantiation line is written), and for each of
+    its parameters whether it is bound (`instance_t::mapping`) -/
+structure WProc where
+  name : String
+  isTempl : Bool
+  bound : List Bool
+  deriving DecidableEq, Repr, Inhabited
+
+structure WDoc where
+  templs : List WTempl
+  procs : List WProc := []
+  deriving DecidableEq, Repr, Inhabited
 
 def idOf (nr : Nat) : String := "id" ++ toString nr
 
@@ -107,9 +118,15 @@ def wTempl (t : WTempl) : Option Xml :=
         ([Xml.elem "init" [("ref", idOf i)] []] ++ es))))
   | _, _ => none
 
+/-- `XMLWriter::system_instantiation` prints `p.arguments_str()` for every process that is not a template itself;
+    `instance_t::print_arguments` looks up *every* parameter in `mapping` and dereferences the result: a free parameter
+    (process with unbound parameters in the system line) dereferences `mapping.end()` -/
+def procCrash (p : WProc) : Bool := !p.isTempl && p.bound.any (!·)
+
 /-- `XMLWriter::project`; `none` = the writer crashes -/
 def writeXml (d : WDoc) : Option Xml :=
-  (allSome (d.map wTempl)).map fun ts =>
+  if d.procs.any procCrash then none
+  else (allSome (d.templs.map wTempl)).map fun ts =>
     .elem "nta" [] ([Xml.elem "declaration" [] []] ++ (ts ++ [Xml.elem "system" [] []]))
 
 /-! ### An independent reader of the written tree -/
@@ -180,29 +197,42 @@ def refOf (tag : String) (kids : List Xml) : Option String :=
     | .elem t a _ => if t = tag then a.lookup "ref" else none
     | .text _ => none
 
+/-- a `<label kind=..>text</label>` child -/
+def lblF (x : Xml) : Option (String × String) :=
+  match x with
+  | .elem t la lk => if t = "label" then some ((la.lookup "kind").getD "", contentOf lk) else none
+  | .text _ => none
+
 def gEdge (a : List (String × String)) (k : List Xml) : GEdge :=
   { src := refOf "source" k, tgt := refOf "target" k,
     ctrl := match a.lookup "controllable" with | none => true | some v => v = "true",
-    labels := k.filterMap fun x => match x with
-      | .elem t la lk => if t = "label" then some ((la.lookup "kind").getD "", contentOf lk) else none
-      | .text _ => none }
+    labels := k.filterMap lblF }
+
+def locF (x : Xml) : Option GLoc :=
+  match x with
+  | .elem t a lk => if t = "location" then some (gLoc a lk) else none
+  | .text _ => none
+
+def initF (x : Xml) : Option (Option String) :=
+  match x with
+  | .elem t a _ => if t = "init" then some (a.lookup "ref") else none
+  | .text _ => none
+
+def edgeF (x : Xml) : Option GEdge :=
+  match x with
+  | .elem t a ek => if t = "transition" then some (gEdge a ek) else none
+  | .text _ => none
 
 def gTempl (k : List Xml) : GTempl :=
-  { name := childText "name" k,
-    locs := k.filterMap fun x => match x with
-      | .elem t a lk => if t = "location" then some (gLoc a lk) else none
-      | .text _ => none,
-    inits := k.filterMap fun x => match x with
-      | .elem t a _ => if t = "init" then some (a.lookup "ref") else none
-      | .text _ => none,
-    edges := k.filterMap fun x => match x with
-      | .elem t a ek => if t = "transition" then some (gEdge a ek) else none
-      | .text _ => none }
+  { name := childText "name" k, locs := k.filterMap locF, inits := k.filterMap initF, edges := k.filterMap edgeF }
+
+def templF (x : Xml) : Option GTempl :=
+  match x with
+  | .elem t _ k => if t = "template" then some (gTempl k) else none
+  | .text _ => none
 
 def readGraph : Xml → Graph
-  | .elem _ _ kids => kids.filterMap fun x => match x with
-      | .elem t _ k => if t = "template" then some (gTempl k) else none
-      | .text _ => none
+  | .elem _ _ kids => kids.filterMap templF
   | .text _ => []
 
 /-! ### Specification: the graph a document denotes -/
@@ -247,7 +277,7 @@ def gedgeOf (e : WEdge) : GEdge :=
 def gtemplOf (t : WTempl) : GTempl :=
   { name := some t.name, locs := t.locs.zipIdx.map glocOf, inits := [t.init.map idOf], edges := t.edges.map gedgeOf }
 
-def graphOf (d : WDoc) : Graph := d.map gtemplOf
+def graphOf (d : WDoc) : Graph := d.templs.map gtemplOf
 
 /-! ### Exception shapes (computed) -/
 
@@ -259,12 +289,18 @@ inductive Shape
   | branchpointEndpoint       -- an edge from/to a branchpoint: null location_t* dereferenced
   | urgentAndCommitted        -- (cannot arise from the builder) only <committed/> is written
   | noInit                    -- template without initial location: null symbol dereferenced
+  | unboundProcess            -- a process with free parameters: `mapping.end()` dereferenced by print_arguments
   deriving DecidableEq, Repr, Inhabited
+
+def selShapes (select : List WSel) : List Shape :=
+  match select with
+  | s :: _ => if s.named then [] else [Shape.selectTypeDropped]
+  | [] => []
 
 def edgeShapes (e : WEdge) : List Shape :=
   (if (nontrivial e.prob).isSome then [Shape.probabilityDropped] else []) ++
   (if e.select.length ≥ 2 then [Shape.selectBindingsDropped] else []) ++
-  (match e.select with | s :: _ => if s.named then [] else [Shape.selectTypeDropped] | [] => []) ++
+  selShapes e.select ++
   (if e.ctrl then [] else [Shape.controllableDropped]) ++
   (match e.src, e.dst with | .loc _, .loc _ => [] | _, _ => [Shape.branchpointEndpoint])
 
@@ -273,6 +309,7 @@ def templShapes (t : WTempl) : List Shape :=
   (if t.locs.any (fun l => l.urgent && l.committed) then [Shape.urgentAndCommitted] else []) ++
   (if t.init.isNone then [Shape.noInit] else [])
 
-def docShapes (d : WDoc) : List Shape := d.flatMap templShapes
+def docShapes (d : WDoc) : List Shape :=
+  d.templs.flatMap templShapes ++ (if d.procs.any procCrash then [Shape.unboundProcess] else [])
 
 end UtapModel.AM
